@@ -259,6 +259,13 @@ func RunTimedWorld(r sim.Src, mons []*sim.Mon, keepLog bool, sh TimedShape) *sim
 		o.Heights = 2 + r.Intn("heights", 2)
 		o.SyncPeriod = tpb * time.Duration(3+r.Intn("syncp", 28)) / 10
 		o.InitialTxs = r.Intn("inittx", 3)
+		if r.Intn("txlag", 3) == 0 {
+			// the pools differ: a proposal may list transactions some backups have to ask for (they are handed them within
+			// one latency), and the primary of a later view may not know a transaction an earlier proposal listed (seeded
+			// change C09m: transactions kept across views)
+			o.TxLag = true
+			o.InitialTxs += 1 + r.Intn("lagtx", 6)
+		}
 		o.Horizon = 1 << 62
 		o.HealBound = true
 		fam := r.Intn("family", 5)
